@@ -148,4 +148,45 @@ Section DH.
     { unfold partial_fit in B12. destruct (valid KB (SB s) (Y1 ++ Y2)); [reflexivity|discriminate]. }
     rewrite VA, VB. cbn [andb]. rewrite B12. cbn [obind fst]. rewrite A12. cbn [obind]. reflexivity.
   Qed.
+  (* ---- a fresh chain: a one-epoch fit is the partial_fit of the whole batch ---- *)
+  Lemma lastn_all {A} (l : list A) n : length l = n -> lastn n l = l.
+  Proof. intros H. unfold lastn. rewrite H, Nat.sub_diag. reflexivity. Qed.
+
+  Theorem chain_fit_eq_partial_fit_fresh : forall (Ks : list (Kernel N)) (rs : list (list N)) Xs y n m eps,
+    Forall (fun X => length X = n) Xs ->
+    chain_fit Ks (map sam_init rs) Xs y 1 m eps = chain_partial_fit Ks (map sam_init rs) Xs y n m eps.
+  Proof.
+    induction Ks as [|K Ks IH]; intros rs Xs y n m eps HX.
+    - destruct rs, Xs; reflexivity.
+    - destruct rs as [|r rs], Xs as [|X Xs]; cbn [map chain_fit chain_partial_fit]; try reflexivity.
+      inversion HX as [|? ? HXn HXs]; subst.
+      change (rewrap (sam_init r)) with (@sam_init N r).
+      rewrite sam_fit_eq_partial_fit_fresh.
+      destruct (sam_partial_fit K (sam_init r) X y m eps) as [l'|] eqn:E; cbn [obind]; [|reflexivity].
+      destruct (sam_partial_fit_appends K (sam_init r) l' X y m eps (or_introl eq_refl) E) as (cs & Lcs & La).
+      cbn [sam_init hasL app] in La.
+      rewrite (lastn_all (labels (A l')) (length X)) by (rewrite La; exact Lcs).
+      rewrite (IH rs Xs (labels (A l')) (length X) m eps HXs). reflexivity.
+  Qed.
+  Lemma zipapp_lengths (Xs1 : list (list (list N))) n1 n2 : forall Xs2,
+    Forall (fun X => length X = n1) Xs1 -> Forall (fun X => length X = n2) Xs2 ->
+    Forall (fun X => length X = n1 + n2) (zipapp Xs1 Xs2).
+  Proof.
+    induction Xs1 as [|X1 Xs1 IH]; intros [|X2 Xs2] H1 H2; cbn; try constructor.
+    - inversion H1; inversion H2; subst. rewrite app_length. reflexivity.
+    - inversion H1; inversion H2; subst. apply IH; assumption.
+  Qed.
+
+  (* a fresh DeepARTMAP / SMART chain trained in two batches = one-epoch fit on the concatenation *)
+  Corollary chain_two_batches_eq_fit (Ks : list (Kernel N)) rs (ls1 ls2 : list sam) Xs1 Xs2 y1 y2 n1 n2 m eps :
+    Forall (fun X => length X = n1) Xs1 -> Forall (fun X => length X = n2) Xs2 ->
+    chain_partial_fit Ks (map sam_init rs) Xs1 y1 n1 m eps = Some ls1 ->
+    chain_partial_fit Ks ls1 Xs2 y2 n2 m eps = Some ls2 ->
+    chain_fit Ks (map sam_init rs) (zipapp Xs1 Xs2) (y1 ++ y2) 1 m eps = Some ls2.
+  Proof.
+    intros H1 H2 P1 P2.
+    rewrite (chain_fit_eq_partial_fit_fresh Ks rs (zipapp Xs1 Xs2) (y1 ++ y2) (n1 + n2) m eps (zipapp_lengths Xs1 n1 n2 Xs2 H1 H2)).
+    eapply chain_partial_fit_app; eauto.
+    apply Forall_forall. intros l Hl. apply in_map_iff in Hl as [r [<- _]]. left. reflexivity.
+  Qed.
 End DH.
